@@ -282,7 +282,7 @@ def run(ctx):
             if nslots <= 9 and not ctx.quick or nslots <= 8:
                 dev = None
             else:
-                dev = 1 if ctx.quick else 2
+                dev = 1 if ctx.quick else 3
             if ctx.quick and dev is None and nslots > 6:
                 dev = 2
             for part in range(8):
@@ -301,7 +301,7 @@ def run(ctx):
                 "kind) pairs, transitions = texts replayed on the implementation; non-trivial = loader returned "
                 "exactly the generator's tree"
                 % ("/".join(str(len(spell.spellings(d))) for d in impl.DIALECTS),
-                   len({c for c, _ in ctxs}), len(SHAPES), 1 if ctx.quick else 2),
+                   len({c for c, _ in ctxs}), len(SHAPES), 1 if ctx.quick else 3),
         "outcome_histogram": dict(acc.outcomes),
         "samples": acc.samples[:8], "exhaustive": True,
     }
